@@ -5,7 +5,7 @@ from props._cfg_common import TRUSTED, ASSUMPTIONS, TECHNIQUE
 
 PROP = "C09"
 LEVEL = "other"
-THEOREMS = {"Properties.C09": []}
+THEOREMS = {"Properties.C09": ["C09_nullable_sub_from_source"]}
 LEVEL_TEXT = ("Partial proof + correspondence: the four stages are mirrored in the Gallina model; theorems proved so far are listed in the evidence "
               "(theorem_assumptions); language preservation of the stages not yet proved is checked on all words up to a bound with the certified "
               "membership oracle (bounded validation), the promised shapes with model-level checkers, and the productions returned by pyformlang are "
